@@ -54,6 +54,36 @@ def judge_pair(x, prev, cur, engine, maximize, where, size=None):
 
 
 class RunMon(Monitor):
+    def __init__(self, x):
+        super().__init__(x)
+        self.prev = None
+
+    def on(self, kind, tree, info):
+        # the population the engine REALLY breeds from has the configured size too: with mutation probability 1 every member of every
+        # generation is a new point, so a SEA-family / DE / SHADE deme that completes a metaepoch evaluates exactly generations x size points
+        if kind != "boundary":
+            return
+        x = self.x
+        cur = {d.id: (d.n_evaluations, d.metaepoch_count, d.is_active, l) for l, d in tree.all_demes}
+        if self.prev is not None and not x.desc.get("use_cache") and x.desc.get("pmut", 1.0) == 1.0 and x.desc.get("cutoff") is None:
+            gens_cfg = x.desc.get("gens", 1)
+            for i, (nev, me, act, l) in cur.items():
+                p = self.prev.get(i)
+                e = x.desc["engines"][l]
+                if p is None or not (p[2] and act) or me != p[1] + 1 or e not in ("SEA", "SEAX", "SEAA", "UEAm", "DE", "DEd", "SHADE"):
+                    continue
+                g = gens_cfg[l] if isinstance(gens_cfg, (list, tuple)) else gens_cfg
+                size = x.desc.get("pop", POP_SIZE.get(e))
+                if e == "SHADE" and size < 4:
+                    continue
+                x.extra_count("C12 metaepochs whose evaluation count was compared with generations x size")
+                # (equal to, not just at most: DE / SHADE trials that coincide with their parent are not re-evaluated, hence '<=' for them)
+                exact = e in ("SEA", "SEAX", "SEAA", "UEAm")
+                if (nev - p[0] != g * size) if exact else (nev - p[0] > g * size):
+                    x.violate(f"C12/evaluations-per-metaepoch:{e}", f"{e} deme {i} evaluated {nev - p[0]} points in one metaepoch of {g} generations, configured size {size}: "
+                              "the population it breeds from is not the configured size")
+        self.prev = cur
+
     def end(self, tree):
         x = self.x
         if tree is None:
